@@ -507,6 +507,32 @@ func ruleRender(p *Prog, r *Result) {
 					quoted = true
 				}
 			}
+			// (the back-quoted form may also be a concatenation "`" + Data + "`")
+			for _, b := range fn.Blocks {
+				ret := retOf(b)
+				if ret == nil {
+					continue
+				}
+				ticks, data := 0, false
+				var leaves func(v ssa.Value, d int)
+				leaves = func(v ssa.Value, d int) {
+					if bo, ok := v.(*ssa.BinOp); ok && bo.Op == token.ADD && d < 4 {
+						leaves(bo.X, d+1)
+						leaves(bo.Y, d+1)
+						return
+					}
+					if sc, ok := constString(v); ok && sc == "`" {
+						ticks++
+					}
+					if isFieldLoad(v, tn, "Data") {
+						data = true
+					}
+				}
+				leaves(retVal(ret, 0), 0)
+				if ticks == 2 && data {
+					quoted = true
+				}
+			}
 			bareUnconditional := false
 			for _, b := range fn.Blocks {
 				ret := retOf(b)
